@@ -92,6 +92,7 @@ def numeval(nodes, ids, assign=None, mp=None):
         elif op == 'mul': v = val[n.a] * val[n.b]
         elif op == 'div': v = val[n.a] / val[n.b] if val[n.b] != 0 else conv('nan')
         elif op == 'neg': v = -val[n.a]
+        elif op == 'abs': v = abs(val[n.a])
         elif op == 'sqrt': v = M.sqrt(val[n.a]) if val[n.a] >= 0 else conv('nan')
         elif op == 'atan2': v = M.atan2(val[n.a], val[n.b])
         elif op == 'round': v = conv(float(val[n.a])) if n.b >= 52 else conv(__import__('struct').unpack('f', __import__('struct').pack('f', float(val[n.a])))[0])
